@@ -1,0 +1,22 @@
+//! Verification hooks (only compiled with `--cfg rosu_pp_verif`).
+
+use rosu_map::section::general::GameMode;
+
+use crate::{
+    model::{beatmap::Beatmap, hit_object::HitObject, mode::ConvertError},
+    Difficulty,
+};
+
+use super::convert;
+
+/// Per object of the map as the taiko difficulty calculation sees it: whether
+/// it is a hit.
+pub fn hit_flags(difficulty: &Difficulty, map: &Beatmap) -> Result<Vec<bool>, ConvertError> {
+    let mut map = map.convert_ref(GameMode::Taiko, difficulty.get_mods())?;
+
+    if let Some(seed) = difficulty.get_mods().random_seed() {
+        convert::apply_random_to_beatmap(map.to_mut(), seed);
+    }
+
+    Ok(map.hit_objects.iter().map(HitObject::is_circle).collect())
+}
